@@ -20,6 +20,10 @@ CLAIMED = {
          "'epsilon = permutation sign inside the domain, rejected outside' are re-proved over the regenerated terms (the epsilon theorems for ALL integer tuples); the kn vjp lambda is regenerated and proved equal to g*dK_n/dx for every integer order under the Bessel recurrence contract. "
          "The running module is compared with the regenerated terms and with the specification inside Coq. Partial: derivatives of autograd's re-exported special functions are validated numerically only.",
          "kn clause relies on the contract of scipy.special.kn (Section hypothesis, DLMF 10.27.3/10.29.1); re-exported autograd functions are not pyerrors code (validation only).", "§3 C20"),
+ "C13": ("proof", "Coq theorems (leave-one-out identity, import/export inverse, jackknife variance = naive error^2, bootstrap row = resample mean; all n, all tables) over a hand model + in-Coq correspondence",
+         "export_jackknife / import_jackknife / export_bootstrap are transcribed (Obs/Resample.v, including the ones-(L-1)*identity matrix product) and proved to be the leave-one-out transform, its inverse, and the mean over resampled configurations for every length and every table; "
+         "the jackknife variance is proved equal to the squared naive error. The implementation is run on generated single-chain observables and Coq decides agreement with model and specification in exact rationals. import_bootstrap's least-squares solve is an oracle: only its result is judged against the specification (restores the samples).",
+         "scipy lstsq, numpy's Generator.integers and md5 seeding are oracles (default table re-derived independently in the harness).", "§3 C13"),
 }
 NOT_YET = "check not built yet in this session (work in progress; see DESIGN.md §6 for the order of work)"
 
